@@ -1443,7 +1443,9 @@ if not HAVE_NUMBA:
         return index
 
     def _find_closest_previous_times(told, tnew):
-        index = np.searchsorted(told, tnew) - 1
+        # side="right": an old time equal to the new time is "previous"
+        # (same as the numba version)
+        index = np.searchsorted(told, tnew, side="right") - 1
         index[index < 0] = 0
         return index
 
